@@ -528,6 +528,97 @@ def rdataPlain (ty : Nat) (data : Bytes) : Bool :=
   | none => true
   | some L => plainWalk L data
 
+/-! ### did a record match the layout of its type? (round 5; instrumented decode, tied by driver op `unpackt`) -/
+
+/-- the record data matches the layout: `walk` never reaches its heuristic fallback -/
+def layoutMatches (buf : Bytes) : List Field → Bytes → Nat → Bool
+  | [], _, _ => true
+  | .name :: fs, rd, pos =>
+    match nameField buf rd pos with
+    | .stop => false
+    | .fail => true
+    | .done _ n => layoutMatches buf fs (rd.drop n) (pos + n)
+  | .fixed k :: fs, rd, pos => if rd.length < k then false else layoutMatches buf fs (rd.drop k) (pos + k)
+  | .cstr :: fs, rd, pos =>
+    match rd with
+    | [] => false
+    | c :: _ => if rd.length < 1 + c.toNat then false else layoutMatches buf fs (rd.drop (1 + c.toNat)) (pos + (1 + c.toNat))
+
+def rrMatched (buf : Bytes) (off len ty : Nat) : Bool :=
+  match layoutOf ty with
+  | none => true
+  | some L => layoutMatches buf L ((buf.drop off).take len) off
+
+/-- `unpackRRs` that also reports whether every record matched the layout of its type -/
+def unpackRRsT (I : Idna) (buf : Bytes) : Nat → Nat → Cache → Option (List RR × Nat × Cache × Bool)
+  | 0, off, c => some ([], off, c, true)
+  | k + 1, off, c =>
+    match unpackName I buf off c 0 with
+    | none => none
+    | some ((name, n), c1) =>
+      let h := off + n
+      match getU16 buf h, getU16 buf (h + 2), getU32 buf (h + 4), getU16 buf (h + 8) with
+      | some ty, some cl, some ttl, some len =>
+        if buf.length < h + 10 + len then none
+        else
+          match rrData buf (h + 10) len ty with
+          | none => none
+          | some data =>
+            match unpackRRsT I buf k (h + 10 + len) c1 with
+            | none => none
+            | some (rs, off', c', ok) => some (⟨name, ty, cl, ttl, data⟩ :: rs, off', c', rrMatched buf (h + 10) len ty && ok)
+      | _, _, _, _ => none
+
+/-- `unpack` that also reports whether every record matched the layout of its type -/
+def unpackT (I : Idna) (buf : Bytes) : Option (Msg × Bool) :=
+  match getU16 buf 0, getU16 buf 2, getU16 buf 4, getU16 buf 6, getU16 buf 8, getU16 buf 10 with
+  | some id, some flags, some nq, some nan, some nns, some nar =>
+    match unpackQuestions I buf nq 12 [] with
+    | none => none
+    | some (qs, o1, c1) =>
+      match unpackRRsT I buf nan o1 c1 with
+      | none => none
+      | some (an, o2, c2, k1) =>
+        match unpackRRsT I buf nns o2 c2 with
+        | none => none
+        | some (ns, o3, c3, k2) =>
+          match unpackRRsT I buf nar o3 c3 with
+          | none => none
+          | some (ar, o4, _, k3) =>
+            if o4 = buf.length then
+              some ({
+                id := id
+                query := flags / 32768 % 2 = 0
+                opCode := flags / 2048 % 16
+                aa := flags / 1024 % 2 = 1
+                tc := flags / 512 % 2 = 1
+                rd := flags / 256 % 2 = 1
+                ra := flags / 128 % 2 = 1
+                reserved := flags / 16 % 8
+                rcode := flags % 16
+                questions := qs, answers := an, authorities := ns, additionals := ar }, k1 && k2 && k3)
+            else none
+  | _, _, _, _, _, _ => none
+
+/-! ### codec-free well-formedness (round 3; executable, tied to its Python twin by driver op `wfascii`) -/
+
+/-- a host-name style label: 1..63 ASCII bytes, no dot, no ACE prefix `xn--` anywhere. For such a label the model
+    never consults the `Idna` parameter: both directions are the codec's transcribed ASCII fast path. -/
+def asciiPart (p : Text) : Bool :=
+  !p.isEmpty && decide (p.length < 64) && isAscii p && !hasAce p && !p.contains 46
+
+/-- a name all of whose labels are `asciiPart` (or the root name) -/
+def asciiName (t : Text) : Bool := t.isEmpty || (splitDot t).all asciiPart
+
+/-- well-formedness that does not mention the idna codec at all (decidable by computation) -/
+def wellFormedAscii (m : Msg) : Bool :=
+  decide (m.id < 65536) && decide (m.opCode < 16) && decide (m.reserved < 8) && decide (m.rcode < 16) &&
+  decide (m.questions.length < 65536) && decide (m.answers.length < 65536) && decide (m.authorities.length < 65536) &&
+  decide (m.additionals.length < 65536) &&
+  m.questions.all (fun q => asciiName q.name && decide (q.type < 65536) && decide (q.cls < 65536)) &&
+  (m.answers ++ m.authorities ++ m.additionals).all (fun r => asciiName r.name && decide (r.type < 65536) && decide (r.cls < 65536) &&
+    decide (r.ttl < 4294967296) && decide (r.data.length < 65536) && rdataPlain r.type r.data)
+
 /-! ### concrete `Idna` used by the driver: a finite table recorded from the real codec -/
 
 def tableIdna (dt : List (Bytes × Option Text)) (et : List (Text × Option Bytes)) (dflt : Option Bytes) : Idna where
